@@ -200,35 +200,45 @@ func (f *formatter) FormatSchema(schema *ast.Schema) {
 
 	f.FormatCommentGroup(schema.Comment)
 
-	var inSchema bool
-	startSchema := func() {
-		if !inSchema {
-			inSchema = true
-
-			f.WriteWord("schema")
-
-			f.FormatDirectiveList(schema.SchemaDirectives)
-
-			f.WriteString("{").WriteNewline()
-			f.IncrementIndent()
+	// The schema definition can only be left out if loading the output infers the same
+	// roots from the default names: every root has its default name, and no other type
+	// is named like the default of a root this schema does not have.
+	needSchemaDefinition := false
+	hasRoot := false
+	for _, root := range []struct {
+		def         *ast.Definition
+		defaultName string
+	}{
+		{schema.Query, "Query"},
+		{schema.Mutation, "Mutation"},
+		{schema.Subscription, "Subscription"},
+	} {
+		if root.def != nil {
+			hasRoot = true
+		}
+		if root.def != schema.Types[root.defaultName] {
+			needSchemaDefinition = true
 		}
 	}
-	if schema.Query != nil && schema.Query.Name != "Query" {
-		startSchema()
-		f.WriteWord("query").NoPadding().WriteString(":").NeedPadding()
-		f.WriteWord(schema.Query.Name).WriteNewline()
-	}
-	if schema.Mutation != nil && schema.Mutation.Name != "Mutation" {
-		startSchema()
-		f.WriteWord("mutation").NoPadding().WriteString(":").NeedPadding()
-		f.WriteWord(schema.Mutation.Name).WriteNewline()
-	}
-	if schema.Subscription != nil && schema.Subscription.Name != "Subscription" {
-		startSchema()
-		f.WriteWord("subscription").NoPadding().WriteString(":").NeedPadding()
-		f.WriteWord(schema.Subscription.Name).WriteNewline()
-	}
-	if inSchema {
+	if needSchemaDefinition && hasRoot {
+		f.WriteWord("schema")
+
+		f.FormatDirectiveList(schema.SchemaDirectives)
+
+		f.WriteString("{").WriteNewline()
+		f.IncrementIndent()
+		if schema.Query != nil {
+			f.WriteWord("query").NoPadding().WriteString(":").NeedPadding()
+			f.WriteWord(schema.Query.Name).WriteNewline()
+		}
+		if schema.Mutation != nil {
+			f.WriteWord("mutation").NoPadding().WriteString(":").NeedPadding()
+			f.WriteWord(schema.Mutation.Name).WriteNewline()
+		}
+		if schema.Subscription != nil {
+			f.WriteWord("subscription").NoPadding().WriteString(":").NeedPadding()
+			f.WriteWord(schema.Subscription.Name).WriteNewline()
+		}
 		f.DecrementIndent()
 		f.WriteString("}").WriteNewline()
 	} else if len(schema.SchemaDirectives) > 0 {
